@@ -207,6 +207,21 @@ CHECKS = {
         text="Every emitted C expression, wrapped as double f_k(double x, ...), compiled with gcc -O0 -std=gnu99 and run at four input vectors, must reproduce the mpmath value of the expression within 64*u*amplification (u = 2^-53 or 2^-24); code that gcc rejects although it only uses bound symbols and <math.h> is a violation. Exploration with a coverage gate over the 59 node types.",
         note="KF-C15-01 (bare integer literals give C integer arithmetic, pinned by test_ccode) is a listed known finding excluded by a type inference over the tree.",
         variants=["main"]),
+    "C18": dict(
+        engine="fz", technique="coverage-guided fuzzing (libFuzzer, ASan+UBSan) of parse / parse with xor conversion / parse_sbml in single-string and history mode, with the oracle inside the target (clean return or std::exception; long-lived parser == fresh parser; print/re-parse), followed by Hypothesis-generated histories of valid/truncated/damaged strings through one parser object compared with a fresh parser per string",
+        text="Every generated byte string given to parse, parse(convert_xor) or parse_sbml either returns or throws a std::exception under ASan+UBSan (crash-/leak- artifacts are violations, replayed 3x); for every history of up to 8 strings through one Parser/SbmlParser object each result equals (eq and str, or both throw) what a fresh parser gives for that string alone. Exploration bounded by run counts; committed corpus of 754 units plus an empty-corpus worker.",
+        note="timeout-/oom-/slow-unit artifacts and GMP allocation aborts (2**10**12 style inputs) are resource noise, never violations. KF-C18-01/02/03 are fixed in /repo and replayed as regressions.",
+        variants=["fuzz", "main"]),
+    "C19": dict(
+        engine="hy", technique="property-based testing (round trip): typed grammar over all 88 serialisable classes with shared sub-objects and 22 special double bit patterns; oracle = eq, raw tree equality, identical multiset of double bit patterns, restored sharing (no value class has more distinct objects after loading), stable second round trip, unchanged hash",
+        text="For every generated object of a class with a save/load overload: dumps and loads do not throw; loads(dumps(e)) == e (NaN-holding objects compared by tree), the raw trees are equal, every stored double keeps its bit pattern, sharing is restored, a second round trip gives the same tree and hash; DenseMatrix through its own dumps/loads. A deterministic class tour visits all 88 classes in every run. Exploration.",
+        note="classes without serialisation support (12) are counted, not judged. The ASan quarantine is switched off for this driver so that address reuse (what _keep_alive guards against) can occur. KF-C19-01 fixed in /repo.",
+        variants=["main"]),
+    "C20": dict(
+        engine="fz", technique="coverage-guided fuzzing (libFuzzer, ASan+UBSan) of Basic::loads: raw bytes, and structure-aware units = a generated object program over every serialisable class, dumped and then edited (type code, sharing reference, first_seen byte, counts, integer strings, truncation, duplication, byte flips); oracle inside the target: loads throws a std::exception or returns an object on which str, hash, eq, compare, free_symbols, dumps/loads, evalf, diff and subs run without sanitizer report",
+        text="Every generated byte string given to Basic::loads either throws a std::exception or returns an object that survives the post-load API battery under ASan+UBSan; crash-/leak- artifacts are violations (replayed 3x in fresh processes). Exploration bounded by run counts; committed corpus of 320 dumps + 24 program units plus an empty-corpus worker.",
+        note="allocation above 256 KiB per request throws bad_alloc in the target (release builds throw where ASan would abort), GMP requests above 256 MiB and trees above 4000 nodes are resource noise. KF-C20-01/02 fixed in /repo and replayed as regressions.",
+        variants=["fuzz"]),
 }
 
 NOT_APPLICABLE = {}
